@@ -16,6 +16,7 @@ import z3
 from contracts.common import *  # noqa
 from contracts import common
 from pyvc import driver, frames
+from contracts.c18 import unit_emit_report  # noqa
 
 ID = "C17"
 EXPLANATION = "syntactic obligations over all 120 report sites + exhaustive small-scope check of the line/column arithmetic; the culprit relation itself is tested, not proved"
@@ -195,7 +196,11 @@ def unit_rac(eng, tier="quick"):
 
 
 def units(tier):
-    return [("span-frame", "unit_span_frame", {}), ("bounded-repr", "unit_bounded_repr", dict(tier=tier)), ("rac", "unit_rac", dict(tier=tier))]
+    us = [("span-frame", "unit_span_frame", {}), ("bounded-repr", "unit_bounded_repr", dict(tier=tier)), ("rac", "unit_rac", dict(tier=tier))]
+    # the report machinery hands the parts of a diagnostic to the handler unchanged and in order (the culprit is the first part)
+    for p in ("error", "critical", "warning"):
+        us.append(("emit_report[%s]" % p, "unit_emit_report", dict(prio=p, latched=False)))
+    return us
 
 
 def canary(eng):
